@@ -390,27 +390,22 @@ void h_relocate(void) {
     QV_END();
 }
 
-/* development probe: state construction only */
-void h_probe_state(void) {
+/* ------------------------------------------------------------ remove_by_idx alone (promotion of a collision key into the
+ * leading slot, back-link repair): structural invariant, view and accounting */
+void h_remove_idx(void) {
     struct astate s = mk();
+    QV_IN(int, idx); QV_ASSUME(idx >= 0 && idx < HM);
+    const qhasharr_slot_t *sl = SLOTS(s.img);
+    int k = ISKEY(sl[idx]) ? keyof(&sl[idx]) : -1;
+    errno = 0;
+    bool r = qhasharr_remove_by_idx(s.t, idx);
     INV(&s);
-    QV_END();
-}
-void h_probe_get(void) {
-    struct astate s = mk();
-    QV_IN(int, k); QV_ASSUME(k >= 0 && k < ALPHA);
-    uchar name = 'a' + k;
-    size_t sz = 0;
-    uchar *d = qhasharr_get_by_obj(s.t, &name, 1, &sz);
-    INV(&s);
-    free(d);
-    QV_END();
-}
-void h_probe_remove(void) {
-    struct astate s = mk();
-    QV_IN(int, k); QV_ASSUME(k >= 0 && k < ALPHA);
-    uchar name = 'a' + k;
-    bool r = qhasharr_remove_by_obj(s.t, (char *)&name, 1);
-    INV(&s);
+    struct view w = take_view(s.img);
+    QV_ASSERT(r == (k >= 0), "C06: remove-by-index succeeds exactly for slots that hold a key");
+    for (int j = 0; j < ALPHA; j++) if (j != k) same_key(&s.v, &w, j);
+    if (k >= 0) { QV_ASSERT(!w.has[k] && s.img->usedslots == s.used - s.v.slots[k] && s.img->num == s.num - 1, "C06: remove-by-index removes exactly that key and releases its slots"); QV_REACH("remove by idx"); }
+    else QV_ASSERT(s.img->usedslots == s.used && s.img->num == s.num, "C06: refused remove-by-index changes nothing");
+    QV_ASSERT(!qhasharr_remove_by_idx(s.t, -1), "C06: negative index is refused");
+    qhasharr_free(s.t); free(s.img);
     QV_END();
 }
